@@ -283,7 +283,8 @@ func (s *TimerQueue) trigger(now int64) []*timerNode {
 
 func (s *TimerQueue) nextID() int {
 	var newId = s.nextId + 1
-	for i := 0; i < 1e4; i++ {
+	// at most len(refer) candidates can be in use: one more probe always finds a free id
+	for i := 0; i <= len(s.refer); i++ {
 		if newId <= 0 {
 			newId = 1
 		}
